@@ -228,6 +228,8 @@ def pixel_region_spec(rng, cls=None, size=None, center=None, include=None, angle
     if cls == 'TextPixelRegion':
         return S.reg(cls, meta=meta, center=c, text=rng.choice(['hello', 'a b', '', 'x;y#z=1']))
     if cls == 'LinePixelRegion':
+        if rng.random() < 0.06:
+            return S.reg(cls, meta=meta, start=c, end=S.pix(cx, cy))          # a line of no extent (both end points on one position)
         return S.reg(cls, meta=meta, start=c, end=S.pix(cx + rng.uniform(-1, 1) * L, cy + rng.uniform(-1, 1) * L))
     raise ValueError(cls)
 
